@@ -384,7 +384,7 @@ func seqCase(r drv.Rand, pool *tok.Pool, w *emit.Writer, ctx context.Context, i 
 			tags = append(tags, "has_"+h+"=1")
 		}
 	}
-	w.Add(emit.Case{Input: emit.Ctor("IIDTokenSeq", v.Coq(), ks.Coq(), emit.List(steps)), Observed: o, Tags: tags,
+	w.Add(emit.Case{Input: tok.Share(emit.Ctor("IIDTokenSeq", v.Coq(), ks.Coq(), emit.List(steps))), Observed: o, Tags: tags,
 		Human: map[string]any{"steps": hows, "verifier": v}})
 	return false
 }
@@ -404,7 +404,7 @@ func main() {
 	pool := tok.NewPool(r)
 	tok.SetWarm(pool)
 	w := emit.NewWriter(cfg.Out, "C01_spec", shardSize(cfg), cfg.Only)
-	n := cfg.Count(480, 12000)
+	n := cfg.Count(640, 16000)
 	amb := 0
 	ctx := context.Background()
 
@@ -435,8 +435,8 @@ func main() {
 		// ---- verifier options
 		v := tok.VCfg{Issuer: issuer, Client: client,
 			Offset: drv.Pick(r, []time.Duration{0, time.Second, time.Second, -time.Second, 5 * time.Second, 30 * time.Second, 5 * time.Minute}),
-			MaxIAT: drv.Pick(r, []time.Duration{0, 0, time.Hour}),
-			MaxAge: drv.Pick(r, []time.Duration{0, 0, time.Hour})}
+			MaxIAT: drv.Pick(r, []time.Duration{0, time.Hour}),
+			MaxAge: drv.Pick(r, []time.Duration{0, 0, 0, time.Hour, time.Hour})}
 		nonceWant := ""
 		switch r.IntN(5) {
 		case 0: // nil Nonce func
@@ -828,11 +828,11 @@ func main() {
 			obs = emit.Ctor("OOut", "(Reject EOther)") // harness self-test: a wrong observation must be flagged
 		}
 		in := emit.Ctor("IIDToken", v.Coq(), ks.Coq(), t.Coq(), m.Coq(), atk, emit.Z(t0), emit.Z(t1))
-		w.Add(emit.Case{Input: in, Observed: obs, Tags: tags,
+		w.Add(emit.Case{Input: tok.Share(in), Observed: obs, Tags: tags,
 			Human: map[string]any{"token": t.Raw, "access_token": abbreviate(at), "access_token_len": len(at), "claims": c, "verifier": v}})
 	}
 	err := w.Close(emit.Meta{Property: "C01", Tier: cfg.Tier, Seed: cfg.Seed,
-		Rule:  "flow first: an all-correct ID token (claims with margins, really signed with a swept algorithm, key published in a remote key set) for a random verifier configuration (offset 0/1s/-1s/5s, max iat age, max auth age, nonce nil/empty/fixed, acr list, allow-list), then 0-3 claim dimensions mutated (absent / wrong / near miss; times at -3..+3 s around each boundary incl. offset and max ages), 1/8 with a signature-level mutation; half through rp.VerifyTokens with at_hash correct / absent / wrong / full hash / other token / other hash. Non-trivial = model path != 0 (anything but a ParseToken reject); distinct = distinct input term.",
+		Rule:  "7/8 single calls, flow first: an all-correct ID token (claims with margins, really signed with a swept algorithm RS/PS/ES/EdDSA, 1/10 HS* with a static key set, key published in a remote key set) for a random verifier configuration (issuer / client id plain or with trailing slash, upper case, space, keyword, non-ASCII letter; offset 0/1s/-1s/5s/30s/5min, max iat age, max auth age, nonce nil/empty/keyword/fixed, acr list, allow-list), then 0-3 claim dimensions mutated (absent / wrong / near miss = trailing slash, case, white space, percent-encoding, Unicode case fold, NUL / keyword literal; times at -3..+3 s around each boundary on both sides of the offset and of the max ages; a configured option multiplies the draws of its dimension), 1/8 with a signature-level mutation, 1/16 with a payload beyond 1 KiB / 4 KiB; 3/5 through rp.VerifyTokens with an access token of length 0 / 1 / 12-72 / around 1 KiB, 2 KiB, 4 KiB, 64 KiB (hex, JWT-shaped, arbitrary bytes) and at_hash correct / absent / wrong / full hash / hash of a related token (common prefix of 1 KiB or 4 KiB, one byte changed, appended / dropped byte, case, white space) / other hash / near-miss string; the digests are computed by the driver. 1/8 sequences of 2-4 calls (VerifyIDToken / VerifyTokens mixed) on ONE verifier and key set: genuinely signed family (full, other subject, sparse claims, second signer) and header.payload.signature recombinations, access tokens A0 / A1 / a relative of A0. Non-trivial = model path != 0 (anything but a ParseToken reject); distinct = distinct input term.",
 		Extra: map[string]any{"clock_ambiguous": amb}})
 	if err != nil {
 		fmt.Fprintln(os.Stderr, err)
